@@ -1053,10 +1053,9 @@ class ModuleEmitter:
         if isinstance(cell, _nir.AsyncReadPort):
             transparency_mask = 0
         if isinstance(cell, _nir.SyncReadPort):
-            transparency_mask = sum(
-                1 << memory_info.write_port_ids[write_port_cell_index]
-                for write_port_cell_index in cell.transparent_for
-            )
+            transparency_mask = 0
+            for write_port_cell_index in cell.transparent_for:
+                transparency_mask |= 1 << memory_info.write_port_ids[write_port_cell_index]
         parameters = {
             "MEMID": memory_info.memid,
             "ABITS": len(cell.addr),
